@@ -7,20 +7,29 @@ import numpy as np
 import common
 import impl
 import flake_runs as fr
+import gen_opcond
 import snowing_runs as sr
 
 
-def zero_d_vs_snowflake(rep, rng, K, tt, sol=None):
+def zero_d_vs_snowflake(rep, rng, K, tt, sol=None, reuse=False):
     sf = impl.snowflake_mod()
     prog = dict(start=20, end=-50, rate=2 / 60, holds=[], t_tot=tt, dt=1.0)
     geo = {"vial": {"geometry": {"height": 0.01, "length": 0.012, "width": 0.01}}}
     if sol:
         geo["solution"] = dict(sol)      # other solution constants (e.g. heavy water, T_eq = 3.82 C), same in both models
-    S0 = sr.make(dim="homogeneous", height=0.01, diameter=0.01, K=K, prog=prog, extra=geo)
-    sr.run(S0)
+    if reuse:
+        # history: the 0D object has already simulated another program; it is then given the program under test and run again
+        prog0 = dict(prog, rate=1 / 60, t_tot=tt + 1800.0)
+        S0 = sr.make(dim="homogeneous", height=0.01, diameter=0.01, K=K, prog=prog0, extra=geo)
+        sr.run(S0)
+        S0.opcond = gen_opcond.build(prog, impl.opcond_mod())
+        sr.run(S0)
+    else:
+        S0 = sr.make(dim="homogeneous", height=0.01, diameter=0.01, K=K, prog=prog, extra=geo)
+        sr.run(S0)
     res = S0.results.iloc[0]
     ie = int(round(float(res["t_nuc"]) * 60 / 0.1))
-    lab = "0D vs Snowflake(1,1,1) K=%g t_tot=%g%s" % (K, tt, " solution=%r" % sol if sol else "")
+    lab = "0D vs Snowflake(1,1,1) K=%g t_tot=%g%s%s" % (K, tt, " solution=%r" % sol if sol else "", " (0D object re-used after another program)" if reuse else "")
     over = dict(geo); over["snowing_parameters"] = {"dimensionality": "homogeneous", "configuration": "shelf"}
     over["vial"]["geometry"]["diameter"] = 0.01
     cfg = dict(arr="square", shape=(1, 1, 1), k={"int": 0, "ext": 0, "s0": K, "s_sigma_rel": 0}, dt=0.1, T_init=None, over=over, initIce="direct",
@@ -105,10 +114,10 @@ def check(rep, tier):
     rep.trusted = ["Coq 8.16.1 kernel (theorems on the 0D <-> Snowflake identities)", "harness/c15.py paired-run oracle; tolerances 1e-9 / 1 % / 10 %",
                    "the thermally-thin 1D -> 0D limit is asymptotic: thorough tier oracle only"]
     hw = {"T_eq": 3.82, "solid_fraction": 0.08, "k_f": 2.05, "M_s": 0.18}
-    for K, tt, sol in ([(50, 5400.0, None), (50, 5400.0, hw)] if tier == "quick" else
-                       [(50, 5400.0, None), (50, 5400.0, hw), (100, 4000.0, {"T_eq": -0.5}), (20, 9000.0, None), (100, 4000.0, hw)]):
+    for K, tt, sol, reuse in ([(50, 5400.0, None, True), (50, 5400.0, hw, False)] if tier == "quick" else
+                              [(50, 5400.0, None, False), (50, 5400.0, None, True), (50, 5400.0, hw, False), (100, 4000.0, {"T_eq": -0.5}, True), (20, 9000.0, None, False), (100, 4000.0, hw, True)]):
         try:
-            zero_d_vs_snowflake(rep, rng, K, tt, sol)
+            zero_d_vs_snowflake(rep, rng, K, tt, sol, reuse)
         except Exception as e:
             rep.violation("pair-crash %s" % type(e).__name__, "0D vs Snowflake pair raises %r" % e, dict(K=K, t_tot=tt))
     for conf in (["VISF"] if tier == "quick" else ["shelf", "VISF"]):
